@@ -4,19 +4,14 @@ NOTES = ("Every check rebuilds its Coq cone (make) and its Go harness against /r
          "inputs, and evaluates model + property oracles inside coqc. Properties not yet claimed are listed under not_applicable with "
          "reason 'not built yet' only while the framework is growing; see DESIGN.md section 8 (status).")
 
-CHECKS = [
- dict(id="C12",
-      technique="Coq proof over all Feed histories (induction, invariant) + in-Coq correspondence with the real FileManager",
-      text=("Theorems (coq/Props/C12.v, 12 statements, all closed under the global context) hold for every history of Feed calls: output names are "
-            "pairwise distinct, accepted files are never overwritten or merged, identical resubmissions are dropped with their unnamed patches, "
-            "conflicting ones are kept under a name no file has, patches of one point are concatenated in submission order, target-less patches "
-            "are errors, scanner-found markers are always replacer keys and key-free text is unchanged. The model is tied to /repo on every run "
-            "by executing the real FileManager on all histories up to length 3 (4 in thorough) over a 13-item alphabet plus random longer ones "
-            "and comparing name and content of every output file with the model inside Coq."),
-      note=("Trusted: Coq kernel + VM; hand-written model Gen/FileManager.v; the harness printing Go values as Coq terms; Go regexp and "
-            "strings.Replacer semantics as modelled (replacer key order is irrelevant only for prefix-free keys, which generated inputs respect). "
-            "No axioms (Print Assumptions: closed)."))
-]
+import json, os, glob
+_here = os.path.dirname(os.path.abspath(__file__))
+CHECKS = [json.load(open(p)) for p in sorted(glob.glob(os.path.join(_here, "manifest", "C*.json")))]
 
 _NOT_BUILT = "not built yet in this round (framework growing); planned per DESIGN.md section 3"
-NOT_APPLICABLE = [dict(property_id="C%02d" % i, reason=_NOT_BUILT) for i in range(1, 21) if "C%02d" % i not in [c["id"] for c in CHECKS]]
+_NA_REASONS = {}
+_p = os.path.join(_here, "manifest", "not_applicable.json")
+if os.path.exists(_p):
+    _NA_REASONS = json.load(open(_p))
+NOT_APPLICABLE = [dict(property_id="C%02d" % i, reason=_NA_REASONS.get("C%02d" % i, _NOT_BUILT))
+                  for i in range(1, 21) if "C%02d" % i not in [c["id"] for c in CHECKS]]
